@@ -234,7 +234,7 @@ func TestC15(t *testing.T) {
 			c15Crash.run(t, c)
 		}
 	})
-	runProp(t, "expressions", 25000, 2000000, func(t *rapid.T) {
+	runProp(t, "expressions", 75000, 2000000, func(t *rapid.T) {
 		c := &c15Case{Kind: "expr", NS: map[string]string{"x": "urn:x", "p": "urn:x"}}
 		c.Vars = []varBinding{{Local: "n0", T: "num", Num: fmtFloat(genFloat(t, "n0"))}, {Local: "n1", T: "num", Num: fmtFloat(genBound(t, "n1"))},
 			{Local: "s0", T: "str", Str: genString(t, "s0")}, {Local: "s1", T: "str", Str: genUni(t, "s1")}, {Local: "t", T: "bool", Bool: true}, {Local: "f", T: "bool"}, {Local: "v", T: "nodes"}}
@@ -277,7 +277,7 @@ func TestC15(t *testing.T) {
 		}
 		c15Crash.run(t, c)
 	})
-	runProp(t, "documents", 15000, 1500000, func(t *rapid.T) {
+	runProp(t, "documents", 45000, 1500000, func(t *rapid.T) {
 		kind := []string{"xml", "html", "json"}[rapid.IntRange(0, 2).Draw(t, "kind")]
 		c := &c15Case{Kind: kind}
 		valid := genCLIFileData(t, kind, false)
@@ -320,7 +320,7 @@ func TestC15(t *testing.T) {
 		c15Crash.run(t, c)
 	})
 	// arbitrary Unmarshal targets: an error, never a panic (the oracle is C19's)
-	runProp(t, "unmarshal-targets", 1500, 50000, func(t *rapid.T) {
+	runProp(t, "unmarshal-targets", 4500, 50000, func(t *rapid.T) {
 		kinds := []string{"nil", "non-pointer struct", "nil pointer", "pointer to nil pointer", "map", "array", "chan", "func", "2-D slice", "unexported tagged field", "interface field", "map field", "array field", "int", "string",
 			"pointer to nil slice pointer", "pointer to pointer to nil struct pointer", "pointer to nil pointer to slice of structs"}
 		c := &c19BadCase{Events: xmodel.Gen(t, c19Doc()), Target: kinds[rapid.IntRange(0, len(kinds)-1).Draw(t, "kind")],
@@ -329,7 +329,7 @@ func TestC15(t *testing.T) {
 		st.NonTrivial("unmarshal|" + c.Target + "|" + c.Select)
 		c15Unmarshal.run(t, c)
 	})
-	runProp(t, "pairs", 6000, 500000, func(t *rapid.T) {
+	runProp(t, "pairs", 18000, 500000, func(t *rapid.T) {
 		// expression x generated document
 		ev := xmodel.Gen(t, xmlCfg())
 		b, _, _, ok := serialise(t, xmodel.Build(ev), false)
